@@ -18,6 +18,11 @@ var c01RichAlpha = []string{"put:a", "put:b", "put:c", "del:a", "del:b", "del:c"
 var emptyKeyAlpha = []string{"put:", "put:a", "put:b", "del:", "del:a", "putL:", "w:-,+a", "w:+,+,-b", "cr", "crk:", "q", "re"}
 var emptyKeyProbes = []string{"", "a", "b", "%00", "ab"}
 
+// key shapes named by the property: runs of 0xff (no successor, no shorter separator), keys
+// sharing a prefix longer than a block, a key that is a prefix of another
+var shapeAlpha = []string{"put:%ff", "put:%ff%ff", "put:pppppppppppppppppp1", "put:pppppppppppppppppp", "putL:pppppppppppppppppp2", "del:%ff", "del:pppppppppppppppppp1", "w:+%ff%ff,-pppppppppppppppppp", "cr", "crk:%ff", "q", "re"}
+var shapeProbes = []string{"", "%ff", "%ff%ff", "%ff%ff%ff", "%fe", "pppppppppppppppppp", "pppppppppppppppppp1", "pppppppppppppppppp2", "pppppppppppppppppp10", "ppppppppppppppppp", "q"}
+
 var c01AlphaBig = append(append([]string{}, c01Alpha...), "big")
 
 // key sets under which each custom comparer orders keys differently from bytes.Compare
@@ -56,6 +61,8 @@ func c01Specs(tier string) []seqSpec {
 		add("flushy/bytewise", c01Alpha, 4)
 		out = append(out, seqSpec{Cfg: "flushy/bytewise", Alpha: emptyKeyAlpha, Depth: 4, Checks: "db", Probes: emptyKeyProbes, Mode: "emptykey"})
 		out = append(out, seqSpec{Cfg: "deep/bytewise", Alpha: emptyKeyAlpha, Depth: 3, Checks: "db", Probes: emptyKeyProbes, Mode: "emptykey"})
+		out = append(out, seqSpec{Cfg: "flushy/bytewise", Alpha: shapeAlpha, Depth: 3, Checks: "db", Probes: shapeProbes, Mode: "keyshapes"})
+		out = append(out, seqSpec{Cfg: "mixed/bytewise", Alpha: shapeAlpha, Depth: 3, Checks: "db", Probes: shapeProbes, Mode: "keyshapes"})
 		add("rot/bytewise", c01Alpha, 4)
 		add("bigbatch/bytewise", c01AlphaBig, 4)
 		add("nobig/bytewise", c01AlphaBig, 3)
@@ -77,6 +84,9 @@ func c01Specs(tier string) []seqSpec {
 		out = append(out, seqSpec{Cfg: "flushy/bytewise", Alpha: emptyKeyAlpha, Depth: 5, Checks: "db", Probes: emptyKeyProbes, Mode: "emptykey"})
 		out = append(out, seqSpec{Cfg: "deep/bytewise", Alpha: emptyKeyAlpha, Depth: 5, Checks: "db", Probes: emptyKeyProbes, Mode: "emptykey"})
 		out = append(out, seqSpec{Cfg: "wide/bytewise", Alpha: emptyKeyAlpha, Depth: 4, Checks: "db", Probes: emptyKeyProbes, Mode: "emptykey"})
+		out = append(out, seqSpec{Cfg: "flushy/bytewise", Alpha: shapeAlpha, Depth: 5, Checks: "db", Probes: shapeProbes, Mode: "keyshapes"})
+		out = append(out, seqSpec{Cfg: "mixed/bytewise", Alpha: shapeAlpha, Depth: 5, Checks: "db", Probes: shapeProbes, Mode: "keyshapes"})
+		out = append(out, seqSpec{Cfg: "snappy/bytewise", Alpha: shapeAlpha, Depth: 4, Checks: "db", Probes: shapeProbes, Mode: "keyshapes"})
 		add("rot/bytewise", c01Alpha, 5)
 		add("deep/bytewise", c01Alpha, 5)
 		add("bigbatch/bytewise", c01AlphaBig, 5)
